@@ -2,6 +2,7 @@ import OH.Props.C04
 import OH.Props.C04P
 import OH.Props.C04E
 import OH.Props.C02B
+import OH.Props.ArithC09Tz
 #print axioms OH.Props.C04.C04_iter_total_partial
 #print axioms OH.Props.C04.C04_state_total_partial
 #print axioms OH.Props.C04.C04_easter_no_panic
@@ -40,3 +41,14 @@ import OH.Props.C02B
 #print axioms OH.Props.C02B.C16_negative_bound_partial
 #print axioms OH.Props.C02B.envOK_shifted
 #print axioms OH.Props.C02B.shifted_witness_values
+#print axioms OH.Props.ArithC09Tz.noLocation_naive
+#print axioms OH.Props.ArithC09Tz.noLocation_datetime
+#print axioms OH.Props.ArithC09Tz.naive_eq_model
+#print axioms OH.Props.ArithC09Tz.walk_eq_model
+#print axioms OH.Props.ArithC09Tz.minute_eq_model
+#print axioms OH.Props.ArithC09Tz.datetime_eq_model
+#print axioms OH.Props.ArithC09Tz.tzFuel_le
+#print axioms OH.Props.ArithC09Tz.datetime_total
+#print axioms OH.Props.ArithC09Tz.eventTime_default
+#print axioms OH.Props.ArithC09Tz.eventTime_no_coords
+#print axioms OH.Props.ArithC09Tz.eventTime_coords
